@@ -41,7 +41,7 @@ def cf_case(draw):
     if auto:
         present = [p for p in present if p != "rd"] or ["dr"]
     exact = draw(st.booleans())
-    out = {"binning": binning, "npatch": npatch, "auto": auto, "present": present, "exact": exact, "prior": draw(st.sampled_from([None, None, "get_array", "sample"]))}
+    out = {"binning": binning, "npatch": npatch, "auto": auto, "present": present, "exact": exact, "prior": draw(st.sampled_from([None, None, "get_array", "sample"])), "via": draw(st.sampled_from(gen.PROVENANCE))}
     for kind in ["dd"] + present:
         member_auto = auto and kind in ("dd", "rr")
         out[kind] = draw(gen.normalised_counts_case(binning=binning, npatch=npatch, auto=member_auto, exact=exact, positive_weights=draw(st.booleans())))
@@ -92,6 +92,11 @@ def run_cf(case):
     if name == "LS-without-dr":
         ck.cls("ls_without_dr(not judged)")
         return ck.results()
+    if c.get("via"):
+        ok, cf = ck.call(gen.via, f"via:{c['via']}", cf, c["via"])
+        if not ok:
+            return ck.results()
+        ck.cls(f"via:{c['via']}")
     with np.errstate(all="ignore"):
         if c.get("prior") == "get_array":
             for member in cf.to_dict().values():
